@@ -80,7 +80,7 @@ func checkC03(c *Ctx) {
 	if !c.Quick() {
 		maxCases = 4
 	}
-	files, ok := runGenModule(c, "GenSwitch", map[string]int{"MaxCases": maxCases}, "switches.ndjson")
+	files, ok := cachedGenModule(c, "GenSwitch", map[string]int{"MaxCases": maxCases}, "switches.ndjson")
 	if !ok {
 		return
 	}
